@@ -12,6 +12,7 @@ let () = each_line (fun l ->
   match peek t with
   | Some "V" ->
     expect t "V"; let vs = times 6 (fun () -> word t) in
+    let ups = word t in                  (* bu_up_sim history: A<=B, A<=A after b = a, B<=A after a = B; or T / E... for the whole group *)
     expect t "F";
     let sw = ref [] in
     while peek t <> Some "I" do sw := word t :: !sw done;
@@ -21,6 +22,14 @@ let () = each_line (fun l ->
     let ts = if truth then "1" else "0" in
     let fails = ref [] in
     List.iteri (fun i v -> if v <> "T" (* time limit: inconclusive *) && (v <> ts || not (gate_verdict a b (v = "1"))) then fails := names.(i) :: !fails) vs;
+    (if ups <> "T" then begin
+       if String.length ups <> 3 then fails := "bu_up_sim" :: !fails
+       else begin
+         let c b = if b then '1' else '0' in
+         if ups.[0] <> c truth then fails := "bu_up_sim" :: !fails;
+         if ups.[1] <> '1' then fails := "bu_up_sim_after_assign" :: !fails;
+         if ups.[2] <> c (incl_dec b a) then fails := "bu_up_sim_after_assign_swapped" :: !fails
+       end end);
     if Array.length sw = 256 then begin
       if not scrape_ok then fails := "dispatch_scrape" :: !fails;
       Array.iteri (fun k tok ->
